@@ -126,6 +126,10 @@ class RefServer:
                 resp.opt.block1 = (b1.block_number, False, szx)
                 return self._reply(pipe, resp)
             final_b1 = (b1.block_number, False, szx)
+            if self.misbehave in ("wrong-final-block1-number-low", "wrong-final-block1-number-high") and b1.block_number >= 1:
+                # the final acknowledgement names another block than the one just sent
+                self.misbehaved = True
+                final_b1 = (b1.block_number - 1 if self.misbehave.endswith("low") else b1.block_number + 1, False, szx)
         else:
             if self.acc:
                 self.violations.append("request without Block1 in the middle of a transfer")
@@ -233,7 +237,7 @@ def mk_transfer(srv_exp, cl_exp, big):
 
 
 MIS = ["wrong-block1-number", "more-on-final-ack", "continue-on-final", "etag-changes", "block2-short", "block2-skip", "block2-repeat",
-       "block2-restart-bigger", "etag-disappears", "etag-appears"]
+       "block2-restart-bigger", "etag-disappears", "etag-appears", "wrong-final-block1-number-low", "wrong-final-block1-number-high"]
 
 
 def mk_misbehave(srv_exp, cl_exp, big):
